@@ -43,7 +43,15 @@ pub(crate) fn for_span(
         // We specifically go from NoUnits to NoUnits128 here instead of
         // directly to NoUnits128 to ensure our increment bounds match the
         // bounds of i64 and not i128.
-        Ok(t::NoUnits128::rfrom(t::NoUnits::new_unchecked(increment)))
+        let increment = t::NoUnits::new_unchecked(increment);
+        if increment <= C(0) {
+            return Err(err!(
+                "rounding increment {increment} for {unit} must be \
+                 greater than zero",
+                unit = unit.plural(),
+            ));
+        }
+        Ok(t::NoUnits128::rfrom(increment))
     } else {
         get_with_limit(unit, increment, "span", LIMIT)
     }
